@@ -43,6 +43,7 @@ PROBES = [
     "empty-batch-after",
     "copy-checked",
     "exit-inside-active-except-handler",
+    "write-outside-batch",
 ]
 FAULTS = ["batch-abort", "batch-abort-base", "batch-abandoned-generator-exit", "second-party-write"]
 COMPONENTS = {
@@ -191,8 +192,9 @@ class World:
         return str(res)
 
     def op_write(self, cmd):
+        # outside a batch the write is buffered all the same: it belongs to the next batch
         if self.gen is None:
-            return "skip"
+            self.st.probe("write-outside-batch")
         k, v = unhx(cmd["k"]), unhx(cmd["v"])
         status, res = self.send(lambda: self.scratch.__setitem__(k, v))
         if status != "ok":
@@ -205,7 +207,7 @@ class World:
 
     def op_delete(self, cmd):
         if self.gen is None:
-            return "skip"
+            self.st.probe("write-outside-batch")
         k = unhx(cmd["k"])
         status, res = self.send(lambda: self.scratch.__delitem__(k))
         if status != "ok":
@@ -389,6 +391,9 @@ def generate(rng):
         prefix.append({"op": "exit", "how": rng.choice(["normal", "normal", "E", "B", "G", "F"])})
         if rng.random() < 0.5:
             prefix += [c for c in gen_ops(rng, keys, vals, 2) if c["op"] in ("read", "contains", "other")]
+    if rng.random() < 0.25:
+        # writes and deletes issued while no batch is open: buffered, part of the next batch
+        prefix += [c for c in gen_ops(rng, keys, vals, rng.choice([1, 2, 4])) if c["op"] != "copy"]
     dd = int(rng.random() < 0.5)
     ops = gen_ops(rng, keys, vals, rng.choice(deep([0, 1, 2, 3, 4, 6, 8, 12], [1, 2, 4, 8, 12, 20, 30])))
     if rng.random() < 0.01:
